@@ -32,7 +32,7 @@ def need_text(n):
     if t == "bool":
         return neg + n["path"]
     if t in ("elapsed", "recurred"):
-        return neg + "%s %s %s" % (t, n["op"], lit(n["goal"]))
+        return neg + "%s %s %s" % (t, n["op"], n["goal"] if isinstance(n["goal"], str) else lit(n["goal"]))
     if t == "done":
         return neg + "%s is done" % n["who"]
     if t == "status":
@@ -72,7 +72,7 @@ def act_lines(a):
     if k == "let":
         return None, "let me if " + needs_text(a["needs"])
     if k == "timeout":
-        return None, "timeout %s" % lit(a["v"])
+        return None, "timeout %s" % (a["v"] if isinstance(a["v"], str) else lit(a["v"]))
     if k == "repeat":
         return None, "repeat %d" % a["n"]
     if k == "aux":
@@ -87,7 +87,7 @@ def act_lines(a):
     if k == "bid":
         s = "bid %s %s" % (a["control"], " ".join(a["who"]))
         if a.get("period") is not None:
-            s += " at %s" % lit(a["period"])
+            s += " at %s" % (a["period"] if isinstance(a["period"], str) else lit(a["period"]))
         return a["ctx"], s
     if k == "fiat":
         return a["ctx"], "%s %s" % (a["control"], a["who"])
@@ -121,7 +121,7 @@ def emit(program):
         if fr.get("order"):
             s += " in %s" % fr["order"]
         if fr.get("period") is not None:
-            s += " at %s" % lit(fr["period"])
+            s += " at %s" % (fr["period"] if isinstance(fr["period"], str) else lit(fr["period"]))
         if fr.get("first"):
             s += " first %s" % fr["first"]
         out.append(s)
@@ -132,6 +132,8 @@ def emit(program):
             out.append(s)
             if f.get("next"):
                 out.append("      next %s" % f["next"])
+            if f.get("under"):
+                out.append("      under %s" % f["under"])
             cur = "native"
             for a in f["acts"]:
                 ctx, text = act_lines(a)
